@@ -163,7 +163,7 @@ PROPS = {
         "engine": "dsim",
         "level": "exploration",
         "technique": "deterministic simulation with fault injection (USE calls interleaved with connection loss, refill, node restart and node addition; the mock tracks the keyspace of every connection at frame arrival)",
-        "rule": "each run = 1..4 nodes (+1 that may join later via NEW_NODE event), 0/2/3 shards, pool PerHost(1..3), 1..4 requester tasks issuing uniquely marked requests every 1..40 ms, one task calling use_keyspace one call at a time with names from a pool (incl. a case-sensitive one), USE answers slowed (20..800 ms) or failed (Overloaded) at seeded rates, and 0..7 chaos events: reset of a live pool connection, node crash + restart, node addition; a failed call is (2 in 3) followed by a call with the SAME name; then 2..10 candidate names of length 0..60 over an alphabet with quotes, semicolons, whitespace, non-ASCII, each tried twice in a row (both must be rejected). Non-trivial = at least one request frame was checked inside a constrained window. Distinct = distinct (poll-sequence hash, event-log hash).",
+        "rule": "each run = 1..4 nodes (+1 that may join later via NEW_NODE event), 0/2/3 shards, pool PerHost(1..3), 1..4 requester tasks issuing uniquely marked requests every 1..40 ms, one task setting the keyspace one call at a time - through Session::use_keyspace or (1 in 3) by running a `USE name` / `USE \"Name\"` statement through query_unpaged - with names from a pool (incl. a case-sensitive one), USE answers slowed (20..800 ms) or failed (Overloaded) at seeded rates, and 0..7 chaos events: reset of a live pool connection, node crash + restart, node addition; a failed call is (2 in 3) followed by a call with the SAME name; then 2..10 candidate names of length 0..60 over an alphabet with quotes, semicolons, whitespace, non-ASCII, each tried twice in a row (both must be rejected). Non-trivial = at least one request frame was checked inside a constrained window. Distinct = distinct (poll-sequence hash, event-log hash).",
         "assumptions": COMMON_ASSUMPTIONS + [
             "oracle: for every request invoked after the governing use_keyspace(k) call returned Ok (governing = last call started before the invocation) and whose frame arrived before the next call started: the connection's keyspace at the mock when the frame arrived is k (lower-cased unless case-sensitive); a candidate name that is not [A-Za-z0-9_]{1,48} makes the call fail and no USE statement containing such a name is ever received by any node",
             "a failed call leaves the keyspace unconstrained until the next success (documented behaviour); a valid but non-existent name may be reported Ok when no pool holds a connection (counted as use_ok_without_any_connection, not judged)",
